@@ -67,7 +67,7 @@ def unit_props(template):
         props.update(m.group(1).split())
     for m in re.finditer(r"props=([\w,]+)", txt):
         props.update(m.group(1).split(","))
-    for m in re.finditer(r"//\[((?:C\d+[\w.\-]*\s*)+)\]", txt):
+    for m in re.finditer(r"//\[((?:C\d+[\w.\-]*\??\s*)+)\]", txt):
         for t in m.group(1).split():
             props.add(t.split(".")[0])
     return props
@@ -79,7 +79,7 @@ def all_units():
 
 def tags_on_line(line):
     out = []
-    for m in re.finditer(r"//\[((?:C\d+[\w.\-]*\s*)+)\]", line):
+    for m in re.finditer(r"//\[((?:C\d+[\w.\-]*\??\s*)+)\]", line):
         out.extend(m.group(1).split())
     return out
 
@@ -434,6 +434,12 @@ def report(prop, tier, seed, results, kres, t0):
             if k:
                 known_hits.append((k, e, r))
                 continue
+            mytags = [t for t in e["tags"] if t.startswith(prop + ".")]
+            if mytags and all(t.endswith("?") for t in mytags):
+                # a clause that pins the current implementation shape, not the property: never an alarm
+                undecided.append({"unit": r["unit"], "status": "undecided",
+                                  "undecided": "shape clause %s no longer matches the code (contract needs updating)" % eid})
+                continue
             if b is not None and not any(x.endswith("::" + fnname) or x == fnname for x in b.get("verified_functions", [])):
                 undecided.append({"unit": r["unit"], "undecided": "obligation %s never verified on the pinned tree" % eid,
                                   "status": "undecided"})
@@ -468,9 +474,19 @@ def report(prop, tier, seed, results, kres, t0):
             undecided.append({"unit": "kani", "undecided": kres["undecided"], "status": "undecided"})
 
     wall = time.time() - t0
-    # known findings
+    # known findings: (a) failing obligations listed in known_findings.json, (b) defects whose existence is
+    # itself proved by a lemma of the unit (the lemma verifying means the defect is still there)
     for k, e, r in known_hits:
         print("KNOWN-FINDING: property=%s %s" % (prop, k["what"]))
+    proved_defects = []
+    for k in known.get("findings", []):
+        if k.get("property") == prop and k.get("proved_by_lemma"):
+            for r in results:
+                if r["status"] == "ok" and r["unit"] == k.get("unit"):
+                    ok = [f for f in r["functions"] if f["name"].endswith("::" + k["proved_by_lemma"]) and f["success"]]
+                    if ok:
+                        print("KNOWN-FINDING: property=%s %s" % (prop, k["what"]))
+                        proved_defects.append(k["what"])
     rc = 0
     replay_paths = []
     if violations:
@@ -520,7 +536,7 @@ def report(prop, tier, seed, results, kres, t0):
             "samples": samples or ["(no tagged clause)"],
             "extraction_rewrites": rewrites,
             "bounded": bounded,
-            "known_findings_reported": [k["what"] for k, _, _ in known_hits],
+            "known_findings_reported": [k["what"] for k, _, _ in known_hits] + proved_defects,
             "undecided": [r.get("undecided") for r in undecided],
             "vacuity_guard": "canary copy with assert(false) at the start of every contracted body must fail: "
                              + ("passed" if all(r.get("canary_ok", False) for r in results if r["status"] == "ok") else "FAILED"),
